@@ -270,9 +270,9 @@ def _direction1(ctx, recs, thorough):
     ]
     if thorough:
         scopes = [
-            ("genome", dict(glen=11, expoints=[3, 4, 6, 9], gaps=[0, 1, 2], sizes=[200, 301])),
+            ("genome", dict(glen=11, expoints=[3, 4, 6], gaps=[0, 2], sizes=[200, 301])),
             ("genome", dict(pad=2, glen=10, width=4, expoints=[2, 7], gaps=[0, 3], sizes=[300, 402])),
-            ("baits", dict(glen=10, gaps=[0, 2], max_baits=3, max_w=2, tgt_avgs=[1, 2], sizes=[200, 301])),
+            ("baits", dict(glen=10, gaps=[0, 2], max_baits=3, max_w=2, tgt_avgs=[1, 2], sizes=[200])),
             ("baits", dict(pad=2, glen=13, gaps=[0], max_baits=2, max_w=3, tgt_avgs=[2, 3], sizes=[300], hapxs=[False, True])),
             ("contigs", dict(glen=8, gaps=[0, 3], sizes=[200, 301], hapxs=[False, True], namings=[1, 2, 3, 4, 5, 6])),
             ("contigs", dict(pad=2, glen=12, gaps=[0], sizes=[402], hapxs=[False, True], namings=[1, 2, 3, 4, 5, 6])),
